@@ -31,7 +31,10 @@ Utf8Bytes(cps) == Utf8From2(cps, 1)
 
 Reverse(s) == [k \in 1..Len(s) |-> s[Len(s) + 1 - k]]
 
-ExpectedRDNs(attrs) == Reverse([k \in DOMAIN attrs |-> [type |-> AttrOid(attrs[k]), value |-> Utf8Bytes(attrs[k].v)]])
+\* a value written in binary (`#` + hex digits): the property speaks of the value TEXT of text pairs only, so for such a pair the
+\* type and the PLACE of its RDN are judged (it is one of the pairs of the subject string, in the documented order), its value octets are not
+IsBin(a) == "bin" \in DOMAIN a /\ a.bin
+ExpectedRDNs(attrs) == Reverse([k \in DOMAIN attrs |-> [type |-> AttrOid(attrs[k]), value |-> Utf8Bytes(attrs[k].v), bin |-> IsBin(attrs[k])]])
 
 \* complaints about a decoded Name (X509!DecodeName result) against the configured attributes
 SubjectComplaints(name, attrs) ==
@@ -40,7 +43,8 @@ SubjectComplaints(name, attrs) ==
   ELSE UNION { LET r == name.rdns[k] IN
                IF Len(r) # 1 THEN {"RDN is not single-valued"}
                ELSE    (IF r[1].type = exp[k].type THEN {} ELSE {"attribute type or order"})
-                  \cup (IF r[1].value = exp[k].value THEN {} ELSE {"attribute value"})
+                  \cup IF exp[k].bin THEN {} ELSE
+                       (IF r[1].value = exp[k].value THEN {} ELSE {"attribute value"})
                   \cup (IF r[1].cls = 0 /\ ~r[1].cons /\ r[1].tag \in {TagPrintable, TagUTF8} THEN {} ELSE {"string type"})
                   \cup (IF r[1].charsetOK THEN {} ELSE {"character set of the string type"})
              : k \in DOMAIN exp }
